@@ -281,6 +281,7 @@ class Opt:
         self.normal_sign = False
         self.suffix = {}  # datum name -> extra signature text
         self.exclude = frozenset()  # source faces that cannot be in the output
+        self.lenient = False  # non-finite slots of corners are judged after the tracking (nonfinite_corners)
         self.__dict__.update(kw)
 
 
@@ -292,12 +293,45 @@ def _dsig(sigp, name, clause, opt):
     return f"{sigp}|{name}|{clause}"
 
 
-def _close(a, b, tol):
+def _same_kind(x, y):
+    """two non-finite values of the same kind (nan / +inf / -inf)"""
+    return bool((np.isnan(x) and np.isnan(y)) or x == y)
+
+
+def _close(a, b, tol, lenient=False):
+    """finite slots within tol (bit-equal when tol is 0); a non-finite slot must hold the same non-finite value on
+    both sides - unless `lenient`, which leaves every slot that is non-finite on either side to a later, classified
+    check (nonfinite_corners)"""
     if tol == 0.0:
         return _b(a) == _b(b)
+    a, b = np.asarray(a, dtype=np.float64).reshape(-1), np.asarray(b, dtype=np.float64).reshape(-1)
+    fa, fb = np.isfinite(a), np.isfinite(b)
+    both = fa & fb
     with np.errstate(all="ignore"):
-        d = np.abs(a - b)
-    return bool(np.all(d <= tol + 4 * EPS * np.abs(b)))
+        if not np.all(np.abs(a[both] - b[both]) <= tol + 4 * EPS * np.abs(b[both])):
+            return False
+    if lenient or both.all():
+        return True
+    if not np.array_equal(fa, fb):
+        return False
+    return all(_same_kind(x, y) for x, y in zip(a[~fa], b[~fb]))
+
+
+def nonfinite_corners(S, res, oT, sigp):
+    """merge with non-finite coordinates: a slot that is non-finite in the source corner must hold the same
+    non-finite value in the output corner, and a finite slot must stay finite"""
+    for j, (i, p) in enumerate(zip(res["src"], res["perm"])):
+        sc = S.T[i][list(p)]
+        oc = oT[j]
+        for c in range(3):
+            for k in range(3):
+                x, y = sc[c][k], oc[c][k]
+                if np.isfinite(x) and np.isfinite(y):
+                    continue
+                if not np.isfinite(x) and not np.isfinite(y):
+                    check(_same_kind(x, y), sigp + "|nonfinite|distinct_nonfinite_values_merged", f"corner {c} of face {j} (source face {i}, source vertex {int(S.F[i][p[c]])} = {sc[c].tolist()}) now reads {oc[c].tolist()}: vertices holding different non-finite values in a coordinate were merged")
+                else:
+                    raise Violation(sigp + "|nonfinite|merged_with_finite", f"corner {c} of face {j} (source face {i}, source vertex {int(S.F[i][p[c]])} = {sc[c].tolist()}) now reads {oc[c].tolist()}: a vertex with a non-finite coordinate and a finite vertex were merged")
 
 
 def mergeable(S, r, s, mp):
@@ -305,9 +339,9 @@ def mergeable(S, r, s, mp):
     width; mp None = an exact merge written by the harness (bit-equal positions)"""
     if mp is None:
         return _b(S.V[r]) == _b(S.V[s])
+    if not _close(S.V[r], S.V[s], 10.0 ** (-mp["dv"]) * (1 + 1e-9) + 4 * EPS * S.vmax, lenient=bool(mp.get("lenient"))):
+        return False
     with np.errstate(all="ignore"):
-        if not np.abs(S.V[r] - S.V[s]).max() <= 10.0 ** (-mp["dv"]) * (1 + 1e-9) + 4 * EPS * S.vmax:
-            return False
         if not mp["merge_tex"] and "uv" in S.vdata:
             uv = S.vdata["uv"]
             if not np.abs(uv[r] - uv[s]).max() <= 10.0 ** (-mp["duv"]) * (1 + 1e-9) + 4 * EPS * float(np.abs(uv).max()):
@@ -343,7 +377,7 @@ def track(S, oV, oF, fo, vo, want_src, opt, sigp):
             cand0 = [int(want_src[j])] if want_src is not None else S.geom.get(_b(oT[j]), [])
             for i in cand0:
                 for p in perms:
-                    if _close(oT[j], S.T[i][list(p)], opt.tol):
+                    if _close(oT[j], S.T[i][list(p)], opt.tol, lenient=opt.lenient):
                         c1.append((i, p))
                         break
         else:
@@ -502,6 +536,10 @@ def check_merge(S, res, oV, vo, mp, sigp, ctx_labels):
                 continue
             tol = 10.0 ** (-dg)
             sub = arr[ss]
+            cols = np.isfinite(sub).all(axis=0)  # non-finite slots are judged by nonfinite_corners
+            if not cols.any():
+                continue
+            sub = sub[:, cols]
             spread = (sub.max(axis=0) - sub.min(axis=0)).max()
             lim = tol * (1 + 1e-9) + 4 * EPS * np.abs(sub).max()
             check(spread <= lim, sigp + f"|merged_beyond_tolerance|{name}", lambda: f"source vertices {ss} were merged into output vertex {k} but their {name} differs by {spread:.3e} > 10^-{dg}: {sub.tolist()}")
@@ -680,9 +718,11 @@ def b_ops(case, ctx):
     for out, want_src, opt, post in [x for x in outs if not callable(x)]:
         oV, oF, fo, vo, opt.suffix = read_output(out, S, sigp, attach["warm"])
         res = track(S, oV, oF, fo, vo, want_src, opt, sigp)
+        if post is not None and opt.lenient:
+            post(res, oV, oF, fo, vo)
         if opt.merge is not None:
             check_merge(S, res, oV, vo, opt.merge, sigp, labels)
-        if post is not None:
+        if post is not None and not opt.lenient:
             post(res, oV, oF, fo, vo)
         if attach["warm"] and name != "constructor" and isinstance(out, trimesh.Trimesh):
             derived_colors(out, S, sigp)
@@ -851,7 +891,18 @@ def op_merge_vertices(S, mesh, op, rs, labels, sigp):
     mesh.merge_vertices(**kw)
     mp = _merge_params(op)
     labels.append("merge:digits_vertex=%s" % ("default" if op.get("digits_vertex") is None else "set"))
-    return [(mesh, list(range(S.nf)), Opt(tol=10.0 ** (-mp["dv"]) * (1 + 1e-9), no_merge=False, merge=mp), None)]
+    nonfin = not bool(np.isfinite(S.V).all())
+    mp["lenient"] = nonfin
+    post = None
+    if nonfin:
+        # merge_vertices itself does not remove non-finite vertices: every face stays, and its non-finite corners
+        # keep their non-finite values
+        labels.append("merge:nonfinite_input")
+
+        def post(res, oV, oF, fo, vo):
+            nonfinite_corners(S, res, oV[oF], sigp)
+
+    return [(mesh, list(range(S.nf)), Opt(tol=10.0 ** (-mp["dv"]) * (1 + 1e-9), no_merge=False, merge=mp, lenient=nonfin), post)]
 
 
 def _nonfinite_guard(S, out, sigp):
@@ -1346,6 +1397,22 @@ def ops_case(draw, names):
     return {"op": op, "dirty": d, "attach": draw(G.attach_spec())}
 
 
+NF_OPS = ["merge_vertices", "merge_vertices", "merge_vertices", "process", "constructor", "remove_infinite_values", "remove_unreferenced_vertices", "update_faces", "unmerge_vertices"]
+
+
+@st.composite
+def nonfinite_case(draw):
+    """grid / origin anchored meshes in which vertices with a NaN / inf coordinate coincide, in their finite slots,
+    with other referenced vertices (and have 0 where the other one is non-finite)"""
+    name = draw(st.sampled_from(NF_OPS))
+    op = draw(op_spec(name))
+    if name == "merge_vertices" and op.get("digits_vertex") == 1:
+        op["digits_vertex"] = None
+    a = draw(G.attach_spec())
+    a["warm"] = False
+    return {"op": op, "dirty": draw(G.lattice_spec()), "attach": a}
+
+
 @st.composite
 def concat_case(draw):
     n = draw(st.sampled_from([2, 2, 3, 3, 4]))
@@ -1390,6 +1457,11 @@ def s_merge(ctx):
 @subcheck("C07", "process", shards={"quick": 3, "thorough": 12})
 def s_process(ctx):
     ctx.given("C07.ops", ops_case(CLEAN_OPS), n={"quick": 2400, "thorough": 60000})
+
+
+@subcheck("C07", "nonfinite", shards={"quick": 2, "thorough": 8})
+def s_nonfinite(ctx):
+    ctx.given("C07.ops", nonfinite_case(), n={"quick": 1600, "thorough": 40000})
 
 
 @subcheck("C07", "submesh_split", shards={"quick": 3, "thorough": 12})
@@ -1442,6 +1514,10 @@ REQUIRED_CLASSES["C07"] = [
     "vmask:int_repeats",
     "mask:bool_drop_few",
     "dirt:dupv_straddle",
+    "dirt:nfdup_zero",
+    "dirt:nfdup_other",
+    "dirt:nfdup_same",
+    "merge:nonfinite_input",
     "concat:faceless_before_faces",
     "concat:empty_before_faces",
     "concat:has_single",
